@@ -47,7 +47,7 @@ vars == <<prog, file, cli, stage, conf, fam, ctxv>>
 
 -----------------------------------------------------------------------------
 FileVal ==
-    [api_bind |-> "10.1.0.1", api_port |-> 11001, rpc_bind |-> "10.1.0.2", rpc_port |-> 11002,
+    [api_bind |-> "10.1.0.1", api_port |-> 11001, rpc_bind |-> "127.0.1.2", rpc_port |-> 11002,
      btc_rpc_connect |-> "127.0.0.2", tor_control_port |-> 11003, onion_hidden_service_port |-> 11004,
      btc_rpc_port |-> 21001,
      btc_rpc_user |-> "file-user", btc_rpc_password |-> "file-pass", btc_rpc_cookie |-> "file.cookie",
@@ -56,7 +56,7 @@ FileVal ==
      internal_api_bind |-> "10.1.0.3", internal_api_port |-> 51001]
 
 CliVal ==
-    [api_bind |-> "10.2.0.1", api_port |-> 12001, rpc_bind |-> "10.2.0.2", rpc_port |-> 12002,
+    [api_bind |-> "10.2.0.1", api_port |-> 12001, rpc_bind |-> "127.0.1.3", rpc_port |-> 12002,
      btc_rpc_connect |-> "127.0.0.3", tor_control_port |-> 12003, onion_hidden_service_port |-> 12004,
      btc_rpc_port |-> 22001,
      btc_rpc_user |-> "cli-user", btc_rpc_password |-> "cli-pass", btc_rpc_cookie |-> "cli.cookie"]
